@@ -174,6 +174,7 @@ func c01Gen() *rapid.Generator[c01Case] {
 		}
 		sp := genSpelling(f.HeadingOK()).Draw(t, "spelling")
 		maybeMixed(t, &sp, len(f))
+		maybeNoGap(t, &sp)
 		if f.Depth() > 16 && sp.Unit > 3 {
 			sp.Unit = 1 + sp.Unit%3 // keep deep documents small
 		}
